@@ -1,0 +1,5 @@
+//go:build !verif
+
+package actionlint
+
+func verifPoint(string, interface{}) {}
